@@ -439,7 +439,14 @@ def compile_ast(
             )
 
             if nd.how == "left":
-                joined = df.join(joined, on="__INDEX__", how="left").drop("__INDEX__")
+                # `joined` also holds the left columns; joining them back would duplicate
+                # them under polars' default `_right` suffix (and collide with user
+                # columns of that name)
+                joined = df.join(
+                    joined.select("__INDEX__", *right_df.collect_schema().names()),
+                    on="__INDEX__",
+                    how="left",
+                ).drop("__INDEX__")
 
             df = joined
 
